@@ -162,7 +162,8 @@ def gen_column(rng, feat, n):
             out.append(t / 8)
         return out
     if feat == "frame":
-        t, out = 0, []
+        # now and then beyond 2**53 (uint64 arithmetic, no float detour)
+        t, out = (2 ** 53 + 1 if rng.random() < 0.15 else 0), []
         for _ in range(n):
             t += rng.randint(1, 4)
             out.append(t)
@@ -182,7 +183,17 @@ def gen_column(rng, feat, n):
     if feat in ("size_x", "size_y", "area_cvx", "area_msd", "area_um",
                 "aspect", "area_ratio"):
         return [rng.randint(8, 400) / 8 for _ in range(n)]
+    if feat in WIDE_FEATURES and rng.random() < 0.35:
+        # values that need the float64 mantissa / exponent, NaN and inf
+        return [rng.choice(WIDE_VALUES + [rng.randint(-40, 400) / 8,
+                                          rng.random() * 10 ** rng.randint(-9, 9)])
+                for _ in range(n)]
     return [rng.randint(-40, 400) / 8 for _ in range(n)]
+
+
+WIDE_FEATURES = ("bright_avg", "pos_x", "pos_y", "tilt", "userdef2", "area_msd")
+WIDE_VALUES = [0.1, 1 / 3, 1e-7, 1e300, -2.5e-300, 16777217.0,
+               float("nan"), float("inf"), float("-inf"), 4503599627370497.0]
 
 
 PRECURSORS = {"deform": ["circ"], "aspect": ["size_x", "size_y"],
@@ -210,6 +221,10 @@ def gen_names(rng, k):
 
 def gen_input(rng, names, n, date, tm, run, rate, logs=True):
     feats = {f: gen_column(rng, f, n) for f in sorted(names)}
+    if "frame" in feats and "time" not in feats and feats["frame"][0] > 2 ** 53:
+        # "time" is computed as frame / frame rate in float64: keep such
+        # frames below 2**53 (the model's arithmetic is exact)
+        feats["frame"] = [v - 2 ** 53 for v in feats["frame"]]
     lg = {}
     if logs:
         for name in rng.sample(LOGNAMES, rng.choice([0, 1, 1, 2])):
@@ -414,10 +429,19 @@ def gen_joinsplit_case(rng, thorough=False):
     nparts = -(-n // k)
     case = dict(kind="joinsplit", input=inp, k=k,
                 rename=gen_names(rng, min(nparts, len(NAME_WORDS))))
-    if rng.random() < 0.45:
+    if rng.random() < 0.5:
         # dclab-split's defaults: skip empty boundary images
         case["initial"] = case["final"] = True
         boundary_seeds(rng, inp)
+        if rng.random() < 0.7:
+            # make sure something is skipped (an all-zero boundary image)
+            inp["feats"].setdefault("image", [rng.randint(1, 10 ** 6)
+                                              for _ in range(n)])
+            r = rng.random()
+            if r < 0.6:
+                inp["feats"]["image"][0] = 0
+            if r > 0.3:
+                inp["feats"]["image"][-1] = 0
     if chunky:
         case["chunk_bytes"] = rng.choice(CHUNK_BYTES)
     return case
@@ -580,7 +604,8 @@ def read_dataset(path):
         tables = {k: table_dict(ds.tables[k]) for k in ds.tables.keys()}
         tkeys = sorted(ds["trace"].keys()) if "trace" in innate else []
     return dict(innate=innate, avail=avail, cols=cols, raw=raw, logs=logs, n=n,
-                sample=sample, tables=tables, trace_keys=tkeys)
+                sample=sample, tables=tables, trace_keys=tkeys,
+                dtypes=stored_dtypes(path))
 
 
 def table_dict(tab):
@@ -602,6 +627,32 @@ def tables_retained(outtabs, prefix, intabs):
             return "table %s not retained (as %s)" % (name, prefix + name)
         if outtabs[prefix + name] != cols:
             return "table %s changed" % name
+    return None
+
+
+def stored_dtypes(path):
+    """dtype of every scalar feature as stored in the file"""
+    import h5py
+    out = {}
+    with h5py.File(path, "r") as h5:
+        for k, v in h5["events"].items():
+            if hasattr(v, "dtype") and v.ndim == 1:
+                out[k] = str(v.dtype)
+    return out
+
+
+def stored_dtype_diff(path_out, feats, infos_in_order):
+    """features that are plain copies must be stored with the dtype they have
+    in the inputs that store them (a float32 cast loses bits)"""
+    got = stored_dtypes(path_out)
+    for f in feats:
+        if f in NONSCALAR or f in ("index", "frame", "index_online", "time"):
+            continue
+        want = set(i["dtypes"][f] for i in infos_in_order
+                   if f in i.get("dtypes", {}))
+        if len(want) == 1 and f in got and got[f] not in want:
+            return "feature %s is stored as %s, the inputs store it as %s" % (
+                f, got[f], sorted(want))
     return None
 
 
@@ -727,21 +778,20 @@ def py_round_half_even(x):
 
 
 def join_oracle(inputs, infos, order_impl_unused, path_out, exc,
-                universe=None):
+                universe=None, skip=()):
     """Model-independent judgement of one join. Returns description or None."""
     import numpy as np
     import dclab
     k = len(inputs)
     bad = [i for i in inputs if not strict_datetime_ok(i["date"], i["time"])]
     if k < 2 or bad:
-        # nothing to join / no acquisition time: a ValueError is expected
-        if exc is not None and exc.startswith("ValueError"):
-            if os.path.exists(path_out) or os.path.exists(path_out + "~"):
-                return "join raised %s but left a file behind" % exc
-            return None
-        return ("join of %d input(s)%s did not raise ValueError (%s)" % (
-            k, " with date/time %r" % [(i["date"], i["time"]) for i in bad]
-            if bad else "", exc or "it produced a file"))
+        # nothing to join / no acquisition time.  The property says nothing
+        # about such calls; judged is only that a refusal leaves no file
+        # (a more tolerant parser that produces a file is not an alarm)
+        if exc is not None and (os.path.exists(path_out)
+                                or os.path.exists(path_out + "~")):
+            return "join raised %s but left a file behind" % exc
+        return None
     acq = [acq_seconds(i) for i in inputs]
     order = sorted(range(k), key=lambda i: (acq[i], inputs[i]["run"]))
     if exc is not None:
@@ -756,10 +806,19 @@ def join_oracle(inputs, infos, order_impl_unused, path_out, exc,
             return "features of the joined file %s, common features %s" % (
                 got, sorted(feats))
         ntot = sum(infos[j]["n"] for j in order)
-        if len(ds) != ntot:
+        if len(ds) != ntot and not skip:
             return "joined file has %d events, inputs have %d" % (len(ds), ntot)
+        # the joined file stands alone: no basins (task_join: basins=False),
+        # nothing available beyond what is stored or computable from it
+        if len(ds.basins):
+            return "the joined file refers to %d basin(s)" % len(ds.basins)
+        d = stored_dtype_diff(path_out, feats, [infos[j] for j in order])
+        if d:
+            return d
         t0 = acq[order[0]]
         for f in feats:
+            if f in skip:
+                continue
             parts = []
             last_ido = None
             for pos, j in enumerate(order):
@@ -823,10 +882,18 @@ def join_oracle(inputs, infos, order_impl_unused, path_out, exc,
         if exp.get("run index") != 1:
             return "experiment:run index of the joined file is %r, not 1" % (
                 exp.get("run index"),)
-        if exp.get("event count") != ntot:
+        if exp.get("event count") != ntot and not skip:
             return "experiment:event count is %r, the inputs hold %d events" % (
                 exp.get("event count"), ntot)
     return None
+
+
+def arr_same(a, b):
+    import numpy as np
+    a, b = np.asarray(a), np.asarray(b)
+    if a.dtype.kind == "f" or b.dtype.kind == "f":
+        return bool(np.array_equal(a, b, equal_nan=True))
+    return bool(np.array_equal(a, b))
 
 
 def _short(a):
@@ -851,9 +918,13 @@ def exec_join(case, wd):
     exc = None
     try:
         join(paths_in=list(paths), path_out=path_out)
-    except Exception as e:
+    except BaseException as e:
+        if isinstance(e, (KeyboardInterrupt, SystemExit)):
+            raise
         exc = "%s: %s" % (type(e).__name__, str(e)[:160])
         ename = type(e).__name__
+    expect_error = len(inputs) < 2 or any(
+        not strict_datetime_ok(i["date"], i["time"]) for i in inputs)
     fail = join_oracle(inputs, infos, None, path_out, exc)
     finding = None
     if exc is None:
@@ -867,16 +938,30 @@ def exec_join(case, wd):
                 fail = "joined file unreadable: %r" % (e,)
     else:
         impl = [ERRCODE.get(ename, 9)]
+        if expect_error:
+            impl = [3]           # the model's "refused" (any error class)
         if os.path.exists(path_out + "~"):
             exc += " (temporary file left behind)"
+    if expect_error and exc is None:
+        nomodel = True           # a tolerant parser: outside the model
     if fail is not None and exc is None and trace_keys_differ(infos):
         # known finding: trace channels that are not in every input are
-        # written for some inputs only (trace datasets of unequal length)
-        with __import__("dclab").new_dataset(path_out) as dj:
-            if "trace" in dj.features_innate and len(set(
-                    len(dj["trace"][kk]) for kk in dj["trace"].keys())) > 1:
+        # written for some inputs only (trace datasets of unequal length).
+        # Exactly that: the trace datasets differ in length and everything
+        # but "trace" (and the event count derived from it) is right.
+        import h5py
+        with h5py.File(path_out, "r") as h5:
+            lens = set(int(h5["events/trace"][kk].shape[0])
+                       for kk in h5["events/trace"]) \
+                if "trace" in h5["events"] else set()
+        if len(lens) > 1:
+            rest = join_oracle(inputs, infos, None, path_out, exc,
+                               skip=("trace",))
+            if rest is None:
                 finding = FIND_TRACE_KEYS
-                nomodel = True
+            else:
+                fail = rest
+            nomodel = True
     try:
         acq = [acq_seconds(i) for i in inputs]
     except ValueError:
@@ -1024,7 +1109,7 @@ def check_basin(ds, ids, info, pi):
             continue
         via = np.asarray(bn.ds[f][:])
         want = np.asarray(info["raw"][f])[ids]
-        if via.shape != want.shape or not np.array_equal(via, want):
+        if via.shape != want.shape or not arr_same(via, want):
             return "part %d: %s through the basin is %s, input events give %s" % (
                 pi + 1, f, _short(via), _short(want))
     return None
@@ -1051,7 +1136,9 @@ def exec_split(case, wd):
                       skip_initial_empty_image=case["initial"],
                       skip_final_empty_image=case["final"],
                       ret_out_paths=True)
-    except Exception as e:
+    except BaseException as e:
+        if isinstance(e, (KeyboardInterrupt, SystemExit)):
+            raise
         exc = "%s: %s" % (type(e).__name__, str(e)[:160])
         # the export of an event-less part fails with a ValueError (the
         # message is not part of the judgement)
@@ -1071,6 +1158,7 @@ def exec_split(case, wd):
     impl = [0, len(paths)]
     collected = {f: [] for f in info["innate"]}
     finding = None
+    fail_empty = None
     for pi, pp in enumerate(paths):
         with dclab.new_dataset(pp) as ds:
             empty = "userdef1" not in ds.features_innate
@@ -1093,10 +1181,9 @@ def exec_split(case, wd):
             # event basinmap0[i]; features read through the basin agree
             if empty:
                 # a file without events: usable by nothing (join refuses it)
-                if fail is None:
-                    fail = "part %d of %d holds no events" % (pi + 1, len(paths))
-                    if split_has_empty_part(case):
-                        finding = FIND_EMPTY_PART
+                if fail_empty is None:
+                    fail_empty = "part %d of %d holds no events" % (
+                        pi + 1, len(paths))
                 continue
             if fail is None:
                 fail = check_basin(ds, ids, info, pi)
@@ -1125,18 +1212,29 @@ def exec_split(case, wd):
                                     info["tables"])
                 if t:
                     fail = "part %d: %s" % (pi + 1, t)
-    if fail is None or finding is not None:
+    if fail is None:
         for f in info["innate"]:
             if f == "index":
                 continue
             want = np.asarray(info["raw"][f])[keep]
             have = np.concatenate(collected[f]) if collected[f] else want[:0]
-            if have.shape != want.shape or not np.array_equal(have, want):
+            if have.shape != want.shape or not arr_same(have, want):
                 fail = ("feature %s: the parts together hold %s, the input "
                         "(without skipped boundary events) %s" % (
                             f, _short(have), _short(want)))
-                finding = None
                 break
+    if fail is None:
+        for pp in paths:
+            got = stored_dtypes(pp)
+            for f, dt in info["dtypes"].items():
+                if f in got and f not in ("index", "frame") and got[f] != dt:
+                    fail = "feature %s is stored as %s in %s, the input has %s" % (
+                        f, got[f], os.path.basename(str(pp)), dt)
+    if fail is None and fail_empty is not None:
+        # everything else is right: exactly the known symptom
+        fail = fail_empty
+        if split_has_empty_part(case):
+            finding = FIND_EMPTY_PART
     nparts_expected = -(-n // k)
     tags = ["split:parts=%d" % min(len(paths), 5)]
     if s0 or s1:
@@ -1260,7 +1358,9 @@ def exec_joinsplit(case, wd):
         paths = split(path_in=path, path_out=outdir, split_events=k,
                       skip_initial_empty_image=initial,
                       skip_final_empty_image=final, ret_out_paths=True)
-    except Exception as e:
+    except BaseException as e:
+        if isinstance(e, (KeyboardInterrupt, SystemExit)):
+            raise
         fail = "split(N=%d, split_events=%d) raised %s: %s" % (
             n, k, type(e).__name__, str(e)[:160])
         finding = FIND_EMPTY_PART if (isinstance(e, ValueError) and
@@ -1278,7 +1378,9 @@ def exec_joinsplit(case, wd):
                 newp.append(q)
             paths = newp
         join(paths_in=[str(p) for p in paths], path_out=path_out)
-    except Exception as e:
+    except BaseException as e:
+        if isinstance(e, (KeyboardInterrupt, SystemExit)):
+            raise
         code = ERRCODE.get(type(e).__name__, 9)
         if len(paths) < 2 and isinstance(e, ValueError):
             # a single part: join refuses fewer than two inputs
@@ -1287,18 +1389,15 @@ def exec_joinsplit(case, wd):
                         tags=tags + ["joinsplit:single-part"])
         fail = "join(split(ds, %d)) raised %s: %s" % (
             k, type(e).__name__, str(e)[:160])
-        if split_has_empty_part(case):
-            # an event-less part (finding): join cannot process it
-            return dict(impl=None, coq=None, fn=None, fail=fail,
+        if split_has_empty_part(case) and isinstance(e, ValueError):
+            # an event-less part (finding): join refuses the empty data; the
+            # model (split_meas with an event-less part) says the same
+            return dict(impl=[code], coq=coq, fn="join_split_flat", fail=fail,
                         finding=FIND_EMPTY_PART, nontrivial=True,
                         tags=tags + ["joinsplit:event-less-part"])
         return dict(impl=[code], coq=coq, fn="join_split_flat", fail=fail,
                     finding=None, nontrivial=True,
                     tags=tags + ["joinsplit:error"])
-    if split_has_empty_part(case):
-        # join went through although a part holds no events: judged by the
-        # oracle below, outside the model
-        coq = None
     order = observed_order(path_out, [str(p) for p in paths])
     impl = encode_joined(path_out, order)
     # the split parts carry logs (src_*, dclab-split...) the model of the
@@ -1308,11 +1407,17 @@ def exec_joinsplit(case, wd):
             and not (s1 and j == n - 1)]
     windows = [[j for j in range(a, min(a + k, n)) if j in keep]
                for a in range(0, n, k)]
+    symptom = False
     with dclab.new_dataset(path_out) as dj:
         jf = sorted(f for f in dj.features_innate if f in FID)
         if jf != sorted(info["innate"]):
             fail = "joined parts have features %s, the original %s" % (
                 jf, sorted(info["innate"]))
+            # the exact symptom of the known finding: an event-less part made
+            # join drop every feature
+            symptom = (jf == [] and split_has_empty_part(case))
+        elif len(dj.basins):
+            fail = "the joined file refers to %d basin(s)" % len(dj.basins)
         elif len(dj) != len(keep):
             fail = "joined parts have %d events, the original %d (%d " \
                    "boundary events skipped)" % (len(dj), n, n - len(keep))
@@ -1342,14 +1447,22 @@ def exec_joinsplit(case, wd):
                             last = col[-1]
                         parts.append(col)
                     want = np.concatenate(parts)
-                if have.shape != want.shape or not np.array_equal(have, want):
+                if have.shape != want.shape or not arr_same(have, want):
                     fail = ("feature %s after join(split(ds, %d)) is %s, "
                             "originally %s" % (f, k, _short(have),
                                                _short(want)))
                     break
-    finding = FIND_EMPTY_PART if (fail and split_has_empty_part(case)) else None
-    return dict(impl=impl if coq else None, coq=coq,
-                fn="join_split_flat" if coq else None, fail=fail,
+    if fail is None:
+        got = stored_dtypes(path_out)
+        for f, dt in info["dtypes"].items():
+            if f in got and f not in ("index", "frame", "index_online",
+                                      "time") and got[f] != dt:
+                fail = "feature %s is stored as %s, the original as %s" % (
+                    f, got[f], dt)
+    finding = FIND_EMPTY_PART if symptom else None
+    if symptom:
+        tags.append("joinsplit:event-less-part")
+    return dict(impl=impl, coq=coq, fn="join_split_flat", fail=fail,
                 finding=finding, nontrivial=True,
                 tags=tags + ["joinsplit:parts=%d" % min(len(paths), 5)])
 
@@ -1439,8 +1552,28 @@ def gen_pysem_case(rng):
                                    "1999-03-01", "2026-10-01"])
         tm = "%02d:%02d:%02d%s" % (rng.randint(0, 23), rng.randint(0, 59),
                                    rng.randint(0, 59), rng.choice(FRACS))
-        if rng.random() < 0.3:
+        r6 = rng.random()
+        if r6 < 0.15:
             date, tm = rng.choice(MALFORMED)
+        elif r6 < 0.65:
+            # any digits in the strict shape: real and unreal dates/times,
+            # seconds 60/61, day 29-31 of every month, long fractions
+            date = "%04d-%02d-%02d" % (
+                rng.choice([1900, 1970, 1999, 2000, 2023, 2024, 2100,
+                            rng.randint(1900, 2200)]),
+                rng.choice([0, 1, 2, 2, 4, 6, 9, 11, 12, 13,
+                            rng.randint(0, 19)]),
+                rng.choice([0, 1, 28, 29, 30, 31, 32, rng.randint(0, 39)]))
+            tm = "%02d:%02d:%02d" % (
+                rng.choice([0, 23, 24, rng.randint(0, 29)]),
+                rng.choice([0, 59, 60, rng.randint(0, 69)]),
+                rng.choice([0, 59, 60, 61, 62, rng.randint(0, 69)]))
+            rf = rng.random()
+            if rf < 0.4:
+                tm += "." + "".join(rng.choice("0123456789")
+                                    for _ in range(rng.randint(0, 9)))
+            elif rf < 0.6:
+                tm += rng.choice(FRACS)
         if tag == 7:
             l1 = [rng.randint(0, 12) for _ in range(rng.randint(0, 12))]
             l2 = []
@@ -1493,7 +1626,8 @@ def exec_pysem(case):
         t = get_acquisition_time(cfg)
     except ValueError:
         return [1]
-    return [0, int(t * 8)]
+    # the value only where it is exact (fraction a multiple of 1/8 s)
+    return [0, int(t * 8)] if float(t * 8).is_integer() else [0]
 
 
 def render_pysem(case):
@@ -1517,7 +1651,9 @@ def exec_case(args):
         if case.get("chunk_bytes") and r.get("tags") is not None:
             r["tags"].append("chunk_bytes=%d" % case["chunk_bytes"])
         return r
-    except Exception as e:      # harness problem, not a judgement
+    except BaseException as e:  # harness problem, not a judgement
+        if isinstance(e, (KeyboardInterrupt, SystemExit)):
+            raise
         import traceback
         return dict(impl=None, coq=None, fn=None, fail=None, finding=None,
                     nontrivial=False, tags=["harness-error"],
@@ -1615,6 +1751,8 @@ def run(run):
             mm = strip_source_logs(m) if fn == "join_split_flat" else m
             if fn in ("join_flat", "join_split_flat"):
                 mm = drop_export_log(mm)
+            if fn == "pysem_flat" and r["impl"] == [0]:
+                mm = mm[:1]
             if mm != r["impl"]:
                 run.mismatch(c, mm, r["impl"])
 
